@@ -126,6 +126,23 @@ def load_is_deterministic(chk: Check, rule: str = 'LOAD-deterministic') -> None:
     chk.units['uncontrolled_sites_below_load'] = n_sites
 
 
+def restored_fields_not_clobbered(chk: Check, rule: str = 'SYM-default-before-restore') -> None:
+    """Process.recreate_from runs ``init()`` AFTER load_instance_state: anything init() assigns overwrites what was restored, so it
+    may only set up runtime fields -- never a persisted one (the pause flag of a process that terminated while paused, say)."""
+    prog = chk.prog
+    proc = prog.cls('processes.Process')
+    init = prog.view(proc.methods['init'])
+    persisted = set(auto_persist_set(prog, proc)) | {a for cq, a, _ in PERSISTED if cq == 'processes.Process'}
+    n = 0
+    for x in ast.walk(init.node):
+        if isinstance(x, ast.Attribute) and isinstance(x.ctx, (ast.Store, ast.Del)) and isinstance(x.value, ast.Name) and x.value.id == 'self':
+            n += 1
+            if x.attr in persisted:
+                chk.ob(rule, init, False, f'init() runs after the saved state was loaded and assigns the persisted field {x.attr}: what the checkpoint said is overwritten '
+                       '(the loaded process differs from the saved one, and saving it again gives another bundle)', node=x, kind=f'init-clobbers:{x.attr}')
+    chk.ob(rule, init, True, f'init() assigns {n} attribute(s), none of them persisted ({sorted(persisted)})', kind='init-runtime-only')
+
+
 def run(chk: Check) -> None:
     prog = chk.prog
     ctx = chk.ctx
@@ -243,6 +260,10 @@ def run(chk: Check) -> None:
         chk.ob('PROV-copy-at-save', pl, ok, f'{k} is restored through decode_input_args', kind=f'decoded:{k}')
     members_deepcopied(chk)
     load_is_deterministic(chk)
+    # the in-memory medium: the bundle is a deep copy of the saved state (shared with C14)
+    from .c14 import snapshot_isolation
+    snapshot_isolation(chk, 'PROV-copy-at-save')
+    restored_fields_not_clobbered(chk)
     from .common import copy_protocol_is_deep
     copy_protocol_is_deep(chk, 'PROV-copy-at-save')
     from .c19 import class_identified_by_loader
